@@ -43,9 +43,13 @@ def run_cases(cases, timeout=3000):
         widths = widths + [x for x in cw.get(src, []) if x[0] not in set(y[0] for y in widths)]
         mlines.append("%d %d %d %d %s %s" % (w, t, r, len(widths), " ".join("%s %s" % x for x in widths), tree))
     model = pipe([MODEL, "conv"], mlines, timeout=timeout)
+    # the signature certificate on the IMPLEMENTATION's document (accepted cases)
+    sjobs = [i for i, parts in enumerate(parsed) if len(parts) >= 4]
+    sres = pipe([MODEL, "sigdoc"], ["%s %s" % (parsed[i][0], parsed[i][1]) for i in sjobs], timeout=timeout) if sjobs else []
+    impl_sig = {i: (None if o.strip() == "2" else o.strip() == "1") for i, o in zip(sjobs, sres)}
     res = []
-    for case, parts, m in zip(cases, parsed, model):
-        d = {"case": case}
+    for idx, (case, parts, m) in enumerate(zip(cases, parsed, model)):
+        d = {"case": case, "impl_sig": impl_sig.get(idx)}
         # the syntax kinds of the tree that was compared (coverage of the converters by the correspondence)
         d["kinds"] = sorted(set(int(x) for x in R_KIND.findall(parts[0]))) if parts and parts[0] else []
         if len(parts) >= 4:
@@ -60,7 +64,8 @@ def run_cases(cases, timeout=3000):
             head, outhex = m.split("\t")
             _, cnt, doc = head.split(" ", 2)
             d["model"] = "ok"
-            cnt, wfc, size, swfc = (cnt.split(":") + ["1", "0", "1"])[:4]
+            cnt, wfc, size, swfc, sg = (cnt.split(":") + ["1", "0", "1", "1"])[:5]
+            d["model_sig"] = None if sg == "2" else (sg == "1")   # None: outside the certificate's scope
             d["model_doc"], d["model_out"], d["model_cnt"] = doc, unhex(outhex), int(cnt)
             d["model_wfc"], d["model_size"], d["model_swfc"] = (wfc == "1"), int(size), (swfc == "1")
         else:
